@@ -139,8 +139,11 @@ def write_replay(prop, payload):
 
 
 def write_evidence(prop, ev):
-    os.makedirs(os.path.join(VERIF, 'evidence'), exist_ok=True)
-    with open(os.path.join(VERIF, 'evidence', f'{prop}.json'), 'w') as f:
+    # evidence/ only ever describes runs against /repo itself; runs pointed at a scratch worktree
+    # (FCAPY_REPO, used for trying seeded changes) write elsewhere
+    sub = 'evidence' if os.environ.get('FCAPY_REPO', '/repo') == '/repo' else os.path.join('.scratch', 'evidence-worktree')
+    os.makedirs(os.path.join(VERIF, sub), exist_ok=True)
+    with open(os.path.join(VERIF, sub, f'{prop}.json'), 'w') as f:
         json.dump(ev, f, indent=1, sort_keys=True, default=str)
 
 
